@@ -427,6 +427,19 @@ def monitor_c10(ctx):
                 'expect': "[7, 5]"},
                {'src': f'r = {call}; [r, tot]', 'astfns': AZ('before = tot\ntot += 2\ntot + before'), 'names': {'tot': 5}, 'keep': {'tot': 5},
                 'expect': "[12, 5]"}]
+    # the parameters of the call in progress are still the innermost bindings after a nested call OF THE SAME LAMBDA returned
+    # (recursion, recursion under map / try_apply, two values of one lambda expression): known values
+    for n in range(0, 6):
+        SC.append({'src': f'f = k => (0 if k < 1 else f(k - 1) + k); f({n})', 'astfns': [], 'expect': str(n * (n + 1) // 2)})
+        fib = [0, 1, 1, 2, 3, 5][n]
+        SC.append({'src': f'f = n => (n if n < 2 else f(n - 1) + f(n - 2)); f({n})', 'astfns': [], 'expect': str(fib)})
+    SC += [{'src': 'f = k => (0 if k < 1 else f(k - 1) + k); map([1, 2, 3], f)', 'astfns': [], 'expect': '[1, 3, 6]'},
+           {'src': 'f = x => ([] if x < 1 else [f(x - 1), x]); f(2)', 'astfns': [], 'expect': '[[[], 1], 2]'},
+           {'src': 'f = x => ([] if x < 1 else [try_apply(f, x - 1), x]); f(2)', 'astfns': [], 'expect': '[[[], 1], 2]'},
+           {'src': 'f = (k, acc) => (acc if k < 1 else [f(k - 1, acc), k]); f(2, 0)', 'astfns': [], 'expect': '[[0, 1], 2]'},
+           {'src': 'g = k => k * 2; f = k => g(k + 1) + k; f(5)', 'astfns': [], 'expect': '17'},
+           {'src': 'f = k => [map([1], w => f2(k)), k]; f2 = k => k + 1; f(3)', 'astfns': [], 'expect': '[[4], 3]'},
+           {'src': 'k = 9; f = k => (0 if k < 1 else f(k - 1) + k); [f(3), k]', 'astfns': [], 'expect': '[6, 9]', 'keep': {}}]
     d = _run('c10_locals', 'c10_locals', [{'scenarios': SC}],
              'ast_names lambdas with statement bodies that bind no parameter at the call (declared without parameters / called with zero '
              'arguments) and assign: the locals are gone after the call, from top level and from inside another lambda call, on return and on raise')
